@@ -30,7 +30,9 @@ META = {
              'hip_ra_x; probes are exact-regime values at and next to the declared bounds (math.nextafter), far outside, one random inside value, '
              'a non-member inside the hull, non-integral values truncating to a member / to the bounds, N.0, and the declared default / start '
              'value; each is run through ReadParameter on a copy of the live object, through the class\'s read_parameters with only that key '
-             'provided, through Model.read_parameters on an example of each configuration family with that key overridden, and (sample) through '
+             'provided (also under every deprecated input name that an ast scan of the read_parameters methods finds), through Model.read_parameters '
+             'on an example of each configuration family and on end-use x power-plant-type gating variants with that key overridden (value in use '
+             'AFTER all modules have read; all bounds always, the rest sampled in quick), and (sample) through '
              'GeophiresXClient/HipRaXClient; non-trivial = distinct (class, parameter, probe tag, layer)'),
     'trusted_base': ['Coq 8.16.1 kernel + vm_compute (no native_compute)',
                      'all C07 theorems: Closed under the global context (no axioms)',
